@@ -3,8 +3,9 @@ Model of `evo/core/geometry.py: umeyama_alignment` (lines 35-86), over exact num
 
 What *is* modelled, exactly as the code computes it: the shape test, `mean_x`, `mean_y`
 (`x.mean(axis=1)`), `sigma_x = 1/n·‖x − mean_x‖²`, `cov_xy = 1/n·Σ (y_i − mean_y)(x_i − mean_x)ᵀ`,
-the rank test of the covariance (`count_nonzero(d > d.max()·3·eps) < m − 1` after fix ec73582,
-in exact arithmetic: rank < 2 ⇔ all 2×2 minors vanish), `t = mean_y − c·r·mean_x`, and the residual the property
+the rank test of the covariance (`count_nonzero(d > max(eps, d.max()·3·eps)) < m − 1` after the
+F12 fix; the tolerance only absorbs the rounding of the SVD — in exact arithmetic the test is
+rank < 2 ⇔ all 2×2 minors vanish), `t = mean_y − c·r·mean_x`, and the residual the property
 speaks about.
 
 What is *not* modelled: `numpy.linalg.svd` and the products `u·s·v`, `trace(diag(d)·s)`.
